@@ -5,6 +5,8 @@
 #include "verif.h"
 #include <deque>
 #include <memory>
+#include <sys/types.h>
+#include <sys/wait.h>
 
 #include "CppUTest/TestHarness.h"
 #include "CppUTest/TestRegistry.h"
@@ -28,10 +30,15 @@ struct TestSpec {
     int passing_checks = 0;
     std::vector<const char*> prints;         // printed in the body, before any failure
     std::vector<FailSpec> failures;          // [0] raised in the body, [1] (if any) raised in teardown
-    bool selected = true;                    // false: excluded by the run's name filter (TeamCity runs only)
+    bool selected = true;                    // false: rejected by the run's group/name filters
+    // separate-process runs only: how the child ends after the scripted body (0 = as scripted, 1 = _exit(death_arg), 2 = killed by signal death_arg)
+    int death = 0, death_arg = 0;
     // observed
     int executed = 0;
+    bool fails_in_child() const { return !failures.empty() || death == 2 || (death == 1 && death_arg != 0); }
 };
+// one filter of the run: the test runs iff (there is no group filter or some group filter accepts its group) and (no name filter or some name filter accepts its name)
+struct FilterSpec { bool on_group; bool strict; bool invert; const char* text; };
 struct GroupSpec { const char* name; std::vector<TestSpec*> tests; };
 struct RunSpec {
     std::deque<std::string> strings;
@@ -42,7 +49,8 @@ struct RunSpec {
     int repeat = 1;
     bool verbose = false;
     int repackage = 0;                          // JUnit, direct mode: setPackageName called 1 + repackage times
-    const char* strict_name_filter = nullptr;   // optional: only tests with exactly this name are selected
+    std::vector<FilterSpec> filters;            // empty: unfiltered run
+    bool sep_process = false;                   // every test runs in a forked child (registry flag / -p); only the parent's output is judged
     const char* keep(const std::string& s) { strings.push_back(s); return strings.back().c_str(); }
 };
 
@@ -75,7 +83,6 @@ static std::string gen_hostile(vf::Rng& r, int minlen, int maxlen, int pct_break
     std::string s = gen_text(r, minlen, maxlen, 30, pct_break);
     int k = r.range(0, 2);
     for (int i = 0; i < k; i++) { size_t pos = r.below(s.size() + 1); s.insert(pos, FRAGMENTS[r.below(sizeof(FRAGMENTS) / sizeof(FRAGMENTS[0]))]); }
-    if (s.empty()) s = "x";
     return s;
 }
 
@@ -83,6 +90,20 @@ static std::string sanitise_filename(const std::string& s) {      // only used t
     std::string o = s;
     for (char& ch : o) if (strchr(SPECIAL_FN, ch)) ch = '_';
     return o;
+}
+
+// independent model of the selection rule (plain C string functions, not SimpleString)
+static bool model_accepts(const FilterSpec& f, const char* s) {
+    bool m = f.strict ? strcmp(s, f.text) == 0 : strstr(s, f.text) != nullptr;
+    return f.invert ? !m : m;
+}
+static bool model_selected(const std::vector<FilterSpec>& fs, const TestSpec& t) {
+    bool any_g = false, ok_g = false, any_n = false, ok_n = false;
+    for (const FilterSpec& f : fs) {
+        if (f.on_group) { any_g = true; ok_g |= model_accepts(f, t.group); }
+        else { any_n = true; ok_n |= model_accepts(f, t.name); }
+    }
+    return (!any_g || ok_g) && (!any_n || ok_n);
 }
 
 static void generate(vf::Rng& r, RunSpec& run, bool thorough) {
@@ -96,7 +117,8 @@ static void generate(vf::Rng& r, RunSpec& run, bool thorough) {
     // in runner mode the package travels through argv ("-k", value): any value is taken literally
     for (int g = 0; g < ngroups; g++) {
         std::string gname;
-        do { gname = gen_hostile(r, 1, 10, 3); } while (!seen.insert(sanitise_filename(gname)).second);
+        // "any group name": the empty string is a legal boundary value (UtestShell("", ...)); at most one per run (distinct file names)
+        do { gname = r.chance(6) ? std::string() : gen_hostile(r, 1, 10, 3); } while (!seen.insert(sanitise_filename(gname)).second);
         GroupSpec gs; gs.name = run.keep(gname);
         int ntests = r.range(1, thorough ? 8 : 6);
         std::string gfile = gen_hostile(r, 3, 14, 2) + ".cpp";
@@ -104,7 +126,7 @@ static void generate(vf::Rng& r, RunSpec& run, bool thorough) {
             run.tests.emplace_back();
             TestSpec& ts = run.tests.back();
             ts.group = gs.name;
-            ts.name = run.keep(gen_hostile(r, 1, 10, 3));
+            ts.name = run.keep(r.chance(4) ? std::string() : gen_hostile(r, 1, 10, 3));
             ts.file = run.keep(r.chance(80) ? gfile : gen_hostile(r, 3, 14, 2));
             ts.line = (size_t) r.range(2, 5000);
             int kind = (int) r.below(100);
@@ -131,18 +153,43 @@ static void generate(vf::Rng& r, RunSpec& run, bool thorough) {
         }
         run.groups.push_back(gs);
     }
-#ifdef VF_TEAMCITY
-    // "for every run": 25 % of the runs are filtered (strict name filter), so that groups whose first/last/all
-    // tests are filtered out occur; judged for balance and for the selected tests only
+    // "for every run": 25 % of the runs are filtered by one or two group/name filters of every kind (substring / strict,
+    // selecting / excluding), so that groups whose first / last / middle / all tests are filtered out occur; judged for the
+    // selected tests only, what a wholly filtered-out group produces is not judged
     if (r.chance(25)) {
-        run.strict_name_filter = r.chance(90) ? run.tests[r.below(run.tests.size())].name : run.keep("no such test");
-        for (auto& t : run.tests) t.selected = strcmp(t.name, run.strict_name_filter) == 0;
+        int nf = r.chance(25) ? 2 : 1;
+        for (int i = 0; i < nf; i++) {
+            FilterSpec f;
+            f.on_group = r.chance(25); f.strict = r.chance(60); f.invert = r.chance(35);
+            const TestSpec& src = run.tests[r.below(run.tests.size())];
+            std::string text = f.on_group ? src.group : src.name;
+            if (!f.strict && !text.empty()) { size_t a = r.below(text.size()); size_t n = 1 + r.below(text.size() - a); text = text.substr(a, n); }
+            if (r.chance(10)) text = "no such test";
+            if (text.empty()) f.strict = true;          // an empty substring filter is C02's business; the empty strict filter selects the empty name
+            f.text = run.keep(text);
+            run.filters.push_back(f);
+        }
+        for (auto& t : run.tests) t.selected = model_selected(run.filters, t);
     }
-#endif
+    // 8 % of the runs (3 % in the thorough tier: a fork of a sanitised process is expensive) execute every test in a forked child
+    // (TestRegistry::setRunTestsInSeperateProcess / -p): the child reports to its own copy of the output object, the parent adds one
+    // failure per child that failed, exited non-zero or was killed
+    if (r.chance(thorough ? 3 : 8)) {
+        run.sep_process = true;
+        static const int SIGS[] = { SIGKILL, SIGTERM, SIGUSR1, SIGUSR2 };
+        for (auto& t : run.tests) {
+            if (t.ignored || !t.failures.empty() || !r.chance(50)) continue;
+            if (r.chance(50)) { t.death = 1; t.death_arg = r.chance(15) ? 0 : r.range(1, 255); }
+            else { t.death = 2; t.death_arg = SIGS[r.below(4)]; }
+        }
+    }
 }
 
 // ------------------------------------------------------------------ scripted shells
 static std::map<const UtestShell*, TestSpec*>* g_specs;
+static pid_t g_runner_pid = 0;                  // the process that called runAllTests: a deadly action is never executed there
+static int g_deadly_in_parent = 0;
+static bool g_parent_pid_guard() { if (getpid() == g_runner_pid) { g_deadly_in_parent++; return true; } return false; }
 
 class ScriptTest : public Utest {
 public:
@@ -154,6 +201,14 @@ public:
         for (int i = 0; i < s_->passing_checks; i++) CHECK(true);
         for (const char* p : s_->prints) sh->print(p, s_->file, s_->line);
         if (!s_->failures.empty()) raise(sh, s_->failures[0]);
+        if (s_->death && !g_parent_pid_guard()) die(s_->death, s_->death_arg);
+    }
+    static void die(int how, int arg) {         // only ever reached in a forked child
+        if (how == 1) _exit(arg);
+        signal(arg, SIG_DFL);
+        sigset_t m; sigemptyset(&m); sigaddset(&m, arg); sigprocmask(SIG_UNBLOCK, &m, nullptr);
+        ::raise(arg);
+        _exit(200);                              // not reached
     }
     static void raise(UtestShell* sh, const FailSpec& f) {
         if (f.located) sh->fail(f.text, f.file, f.line);
@@ -216,15 +271,24 @@ static std::string truth_json(const RunSpec& run, const std::vector<TestSpec*>& 
         while (k < order.size() && strcmp(order[k]->group, g) == 0) {
             TestSpec* t = order[k];
             std::vector<std::string> fails, prints;
-            for (const FailSpec& f : t->failures) fails.push_back(vf::J().k("file", f.file).k("line", (unsigned long) f.line).k("text", f.text).str());
-            for (const char* p : t->prints) prints.push_back(vf::jstr(p));
+            if (run.sep_process) {
+                // what the PARENT's output object gets to see: no printed text, and one failure (reported for the test itself, text not judged here: C11)
+                // for a child that recorded a failure, exited non-zero or was killed
+                if (!t->ignored && t->fails_in_child()) fails.push_back(vf::J().k("file", t->file).k("line", (unsigned long) t->line).raw("text", "null").str());
+            } else {
+                for (const FailSpec& f : t->failures) fails.push_back(vf::J().k("file", f.file).k("line", (unsigned long) f.line).k("text", f.text).str());
+                for (const char* p : t->prints) prints.push_back(vf::jstr(p));
+            }
             tests.push_back(vf::J().k("name", t->name).k("file", t->file).k("line", (unsigned long) t->line).k("ignored", t->ignored).k("selected", t->selected)
-                            .raw("failures", vf::jarr(fails)).raw("prints", vf::jarr(prints)).k("executed", t->executed).str());
+                            .raw("failures", vf::jarr(fails)).raw("prints", vf::jarr(prints)).k("executed", t->executed)
+                            .k("scripted_failures", (int) t->failures.size()).k("child_end", t->death == 0 ? "as scripted" : t->death == 1 ? "_exit" : "signal").k("child_end_arg", t->death_arg).str());
             k++;
         }
         groups.push_back(vf::J().k("name", g).raw("tests", vf::jarr(tests)).str());
     }
-    return vf::J().k("package", run.package).k("filter", run.strict_name_filter ? run.strict_name_filter : "").k("filtered", run.strict_name_filter != nullptr).k("set_package_calls", 1 + run.repackage).k("mode", run.mode).k("repeat", run.repeat).k("verbose", run.verbose).raw("groups", vf::jarr(groups)).str();
+    std::vector<std::string> flts;
+    for (const FilterSpec& f : run.filters) flts.push_back(vf::J().k("on", f.on_group ? "group" : "name").k("strict", f.strict).k("invert", f.invert).k("text", f.text).str());
+    return vf::J().k("package", run.package).raw("filters", vf::jarr(flts)).k("filtered", !run.filters.empty()).k("separate_process", run.sep_process).k("set_package_calls", 1 + run.repackage).k("mode", run.mode).k("repeat", run.repeat).k("verbose", run.verbose).raw("groups", vf::jarr(groups)).str();
 }
 
 static bool has_any(const char* s, const char* set) { return strpbrk(s, set) != nullptr; }
@@ -259,6 +323,9 @@ static void sec_runs(vf::Ctx& c) {
     for (UtestShell* sh = reg.getFirstTest(); sh; sh = sh->getNext()) order.push_back(specs[sh]);
 
     int runner_rc = -1;
+    g_runner_pid = getpid(); g_deadly_in_parent = 0;
+    if (run.sep_process) fflush(nullptr);       // nothing buffered may be inherited by (and flushed a second time from) a forked child
+    static const char* const FLAG[2][2][2] = { { { "-n", "-xn" }, { "-sn", "-xsn" } }, { { "-g", "-xg" }, { "-sg", "-xsg" } } };   // [group][strict][invert]
     if (run.mode == 0) {
 #ifdef VF_JUNIT
         RecJUnit out;
@@ -270,12 +337,20 @@ static void sec_runs(vf::Ctx& c) {
         RecTeamCity out;
 #endif
         TestResult res(out);
-        if (run.strict_name_filter) {
-            TestFilter flt(run.strict_name_filter); flt.strictMatching();
-            reg.setNameFilters(&flt);
-            reg.runAllTests(res);
-            reg.setNameFilters(NULLPTR);
-        } else reg.runAllTests(res);
+        std::deque<TestFilter> flts;
+        TestFilter* gf = NULLPTR; TestFilter* nf = NULLPTR;
+        for (const FilterSpec& f : run.filters) {
+            flts.emplace_back(f.text);
+            TestFilter* tf = &flts.back();
+            if (f.strict) tf->strictMatching();
+            if (f.invert) tf->invertMatching();
+            if (f.on_group) gf = tf->add(gf); else nf = tf->add(nf);
+        }
+        if (gf) reg.setGroupFilters(gf);
+        if (nf) reg.setNameFilters(nf);
+        if (run.sep_process) reg.setRunTestsInSeperateProcess();
+        reg.runAllTests(res);
+        reg.setGroupFilters(NULLPTR); reg.setNameFilters(NULLPTR);
     } else {
         std::vector<const char*> av; av.push_back("harness");
 #ifdef VF_JUNIT
@@ -284,7 +359,8 @@ static void sec_runs(vf::Ctx& c) {
 #else
         av.push_back("-oteamcity");
 #endif
-        if (run.strict_name_filter) { av.push_back("-sn"); av.push_back(run.strict_name_filter); }
+        for (const FilterSpec& f : run.filters) { av.push_back(FLAG[f.on_group][f.strict][f.invert]); av.push_back(f.text); }
+        if (run.sep_process) av.push_back("-p");
         if (run.verbose) av.push_back("-v");
         if (run.repeat == 2) av.push_back("-r2");
         CommandLineTestRunner runner((int) av.size(), av.data(), &reg);
@@ -295,10 +371,11 @@ static void sec_runs(vf::Ctx& c) {
 
     // execution sanity (not the property itself, but the ground truth relies on it)
     for (TestSpec* t : order) {
-        int want = (t->ignored || !t->selected) ? 0 : run.repeat;
+        int want = (t->ignored || !t->selected || run.sep_process) ? 0 : run.repeat;     // separate process: the body runs in the child, the parent's counter stays
         if (t->executed != want) c.violation("harness:execution-count", std::string("test ran ") + std::to_string(t->executed) + " times, expected " + std::to_string(want));
     }
 
+    if (g_deadly_in_parent) c.violation("harness:test-not-run-in-a-child", std::to_string(g_deadly_in_parent) + " test(s) of a separate-process run were executed in the process that called runAllTests (the deadly end of the body was skipped)");
     std::vector<std::string> files, printed;
     for (const FileCap& f : g_files) files.push_back(vf::J().k("name", f.name).k("mode", f.mode).k("content", f.content).k("closes", f.closes).k("writes_after_close", f.writes_after_close).str());
     for (const std::string& p : g_printed) printed.push_back(vf::jstr(p));
@@ -323,7 +400,29 @@ static void sec_runs(vf::Ctx& c) {
     }
     c.count("groups", run.groups.size());
     c.count(run.mode ? "runs_through_CommandLineTestRunner" : "runs_direct_registry");
-    if (run.strict_name_filter) c.count("runs_with_name_filter");
+    if (!run.filters.empty()) {
+        c.count("runs_filtered");
+        for (const FilterSpec& f : run.filters) c.count(std::string("filters_") + (f.on_group ? "group" : "name") + (f.strict ? "_strict" : "_substring") + (f.invert ? "_excluding" : "_selecting"));
+        bool drops_last = false;
+        for (const GroupSpec& g : run.groups) {
+            size_t nsel = 0; for (TestSpec* t : g.tests) nsel += t->selected;
+            c.count(nsel == 0 ? "groups_wholly_filtered_out" : nsel == g.tests.size() ? "groups_wholly_selected_in_filtered_runs" : "groups_partly_filtered");
+            if (nsel && !g.tests.back()->selected) { c.count("groups_whose_last_test_is_filtered_out_after_a_selected_one"); drops_last = true; }
+            if (nsel && !g.tests.front()->selected) c.count("groups_whose_first_test_is_filtered_out_before_a_selected_one");
+        }
+        if (drops_last) c.count("runs_filter_drops_last_test_of_a_group_that_ran");
+    }
+    for (const GroupSpec& g : run.groups) if (!g.name[0]) c.count("groups_with_empty_name");
+    for (TestSpec* t : order) if (!t->name[0]) c.count("tests_with_empty_name");
+    if (run.sep_process) {
+        c.count("runs_in_separate_processes");
+        for (TestSpec* t : order) {
+            if (t->ignored || !t->selected) continue;
+            c.count("children_forked", (uint64_t) run.repeat);
+            c.count(!t->failures.empty() ? "children_with_failing_checks" : t->death == 2 ? "children_killed_by_signal" : t->death == 1 ? (t->death_arg ? "children_exit_nonzero" : "children_exit_zero_early") : "children_passing", (uint64_t) run.repeat);
+            if (t->fails_in_child()) c.count("parent_side_failures_expected", (uint64_t) run.repeat);
+        }
+    }
 #ifdef VF_JUNIT
     c.count("xml_files_captured", g_files.size());
     if (markup && failing && ignored) c.nontrivial(sig);
